@@ -283,7 +283,19 @@ def ocaml_build(timeout=900):
         exe = os.path.join(ROOT, 'ocaml', '_build', 'default', 'hvmain.exe')
         if rc != 0 or not os.path.exists(exe):
             return None, out
-        return exe, out
+        # hand out a content-addressed copy: a later rebuild (another check, another builder) must not pull the
+        # executable from under a running check
+        with open(exe, 'rb') as f:
+            key = hashlib.sha256(f.read()).hexdigest()[:24]
+        d = os.path.join(CACHE, 'hvmain-' + key)
+        stable = os.path.join(d, 'hvmain.exe')
+        if not os.path.exists(stable):
+            os.makedirs(d, exist_ok=True)
+            shutil.copy2(exe, stable + '.tmp')
+            os.rename(stable + '.tmp', stable)
+        else:
+            os.utime(d, None)
+        return stable, out
 
 
 # ---------------------------------------------------------------- verdicts
